@@ -101,50 +101,76 @@ Fixpoint render_fuel (f : nat) (n : Z) : str :=
 Definition render_nat (n : Z) : str := render_fuel 20 n.
 Definition render_int (z : Z) : str := if z <? 0 then 45%N :: render_nat (- z) else render_nat z.
 
-(* ------------------------------------------------------------ parseNumber *)
-(* Length of the JSON number at the head of the input, as the tokenizer takes
-   it ("e" without digits is let through: `1e,` is a Number token "1e"). *)
-Definition parse_number (input : str) : option nat :=
-  let after_sign := match input with 45%N :: r => Some (1%nat, r) | _ => Some (0%nat, input) end in
-  match after_sign with
-  | None => None
-  | Some (n0, s0) =>
-    match s0 with
-    | [] => None
-    | c :: r =>
-      let ip := if N.eqb c 48 then Some (1%nat, r)
-                else if is_19 c then let (d, t) := span_digits r in Some (S (List.length d), t)
-                else None in
-      match ip with
-      | None => None
-      | Some (n1, s1) =>
-        let '(n2, s2) := match s1 with
-                         | 46%N :: c2 :: r2 =>
-                             if is_digit c2 then let (d, t) := span_digits r2 in (S (S (List.length d)), t)
-                             else (0%nat, s1)
-                         | _ => (0%nat, s1)
-                         end in
-        let ex := match s2 with
-                  | e :: c3 :: r3 =>
-                      if (N.eqb e 101 || N.eqb e 69)%bool then
-                        if (N.eqb c3 43 || N.eqb c3 45)%bool then
-                          match r3 with
-                          | [] => None
-                          | _ => let (d, t) := span_digits r3 in Some (S (S (List.length d)), t)
-                          end
-                        else let (d, t) := span_digits (c3 :: r3) in Some (S (List.length d), t)
-                      else Some (0%nat, s2)
-                  | _ => Some (0%nat, s2)
-                  end in
-        match ex with
-        | None => None
-        | Some (n3, s3) => if next_is_delim s3 then Some (n0 + n1 + n2 + n3)%nat else None
-        end
-      end
-    end
+(* ------------------------------------------- parseNumber / parseNumberParts *)
+(* The two Go functions scan a number with the same control flow (sign, integer
+   digits, fraction, exponent); parseNumber then checks that a delimiter
+   follows and returns the length, parseNumberParts returns the pieces and
+   ignores whatever follows.  [lex_num] is that common scan.  Note the
+   exponent: after e/E at least one more byte must exist, a sign must be
+   followed by at least one more byte, but no digit is required ("1e," is the
+   Number token "1e"). *)
+Definition is_e (c : N) : bool := (N.eqb c 101 || N.eqb c 69)%bool.
+Definition is_sign (c : N) : bool := (N.eqb c 43 || N.eqb c 45)%bool.
+
+Definition strip_minus (s : str) : bool * str :=
+  match s with
+  | c :: r => if N.eqb c 45 then (true, r) else (false, s)
+  | [] => (false, s)
   end.
 
-(* ------------------------------------------------------- parseNumberParts *)
+(* integer digits as written ("0" or a non-zero digit followed by digits) *)
+Definition int_part (s : str) : option (str * str) :=
+  match s with
+  | [] => None
+  | c :: r => if N.eqb c 48 then Some ([c], r)
+              else if is_19 c then let (d, t) := span_digits r in Some (c :: d, t)
+              else None
+  end.
+
+(* '.' followed by one or more digits, else nothing is consumed *)
+Definition frac_part (s : str) : str * str :=
+  match s with
+  | c :: c2 :: r2 => if (N.eqb c 46 && is_digit c2)%bool then let (d, t) := span_digits r2 in (c2 :: d, t)
+                     else ([], s)
+  | _ => ([], s)
+  end.
+
+(* exponent as written after e/E (sign and digits), and the rest *)
+Definition exp_part (s : str) : option (str * str) :=
+  match s with
+  | e :: c3 :: r3 =>
+      if is_e e then
+        if is_sign c3 then
+          match r3 with
+          | [] => None
+          | _ => let (d, t) := span_digits r3 in Some (c3 :: d, t)
+          end
+        else let (d, t) := span_digits (c3 :: r3) in Some (d, t)
+      else Some ([], s)
+  | _ => Some ([], s)
+  end.
+
+Record lexed := mkLexed { lx_neg : bool; lx_int : str; lx_frac : str; lx_exp : str; lx_rest : str }.
+
+Definition lex_num (s : str) : option lexed :=
+  let (neg, s0) := strip_minus s in
+  match int_part s0 with
+  | None => None
+  | Some (ip, s1) =>
+      let (fr, s2) := frac_part s1 in
+      match exp_part s2 with
+      | None => None
+      | Some (ex, s3) => Some (mkLexed neg ip fr ex s3)
+      end
+  end.
+
+(* Length of the JSON number at the head of the input, as the tokenizer takes it. *)
+Definition parse_number (input : str) : option nat :=
+  match lex_num input with
+  | Some l => if next_is_delim (lx_rest l) then Some (List.length input - List.length (lx_rest l))%nat else None
+  | None => None
+  end.
+
 Record numparts := mkParts {
   np_neg : bool;
   np_int : str;    (* integer digits; empty when the number starts with 0 *)
@@ -153,53 +179,26 @@ Record numparts := mkParts {
 }.
 
 Fixpoint drop_zeros (s : str) : str :=
-  match s with 48%N :: r => drop_zeros r | _ => s end.
+  match s with
+  | c :: r => if N.eqb c 48 then drop_zeros r else s
+  | [] => []
+  end.
 Definition trim_right_zeros (s : str) : str := rev (drop_zeros (rev s)).
 
-(* applied to the raw bytes of a Number token; whatever follows the parts it
-   recognises is ignored, as in the Go code *)
+(* applied to the raw bytes of a Number token *)
 Definition number_parts (raw : str) : option numparts :=
-  let '(neg, s0) := match raw with 45%N :: r => (true, r) | _ => (false, raw) end in
-  match s0 with
-  | [] => None
-  | c :: r =>
-    let ip := if N.eqb c 48 then Some ([], r)
-              else if is_19 c then let (d, t) := span_digits r in Some (c :: d, t)
-              else None in
-    match ip with
-    | None => None
-    | Some (intp, s1) =>
-      let '(frac, s2) := match s1 with
-                         | 46%N :: c2 :: r2 =>
-                             if is_digit c2 then let (d, t) := span_digits r2 in (c2 :: d, t)
-                             else ([], s1)
-                         | _ => ([], s1)
-                         end in
-      let ex := match s2 with
-                | e :: c3 :: r3 =>
-                    if (N.eqb e 101 || N.eqb e 69)%bool then
-                      if (N.eqb c3 43 || N.eqb c3 45)%bool then
-                        match r3 with
-                        | [] => None
-                        | _ => let (d, _) := span_digits r3 in Some (c3 :: d)
-                        end
-                      else let (d, _) := span_digits (c3 :: r3) in Some d
-                    else Some []
-                | _ => Some []
-                end in
-      match ex with
-      | None => None
-      | Some e => Some (mkParts neg intp (trim_right_zeros frac) e)
-      end
-    end
+  match lex_num raw with
+  | Some l => Some (mkParts (lx_neg l)
+                            (if str_eqb (lx_int l) [48%N] then [] else lx_int l)
+                            (trim_right_zeros (lx_frac l)) (lx_exp l))
+  | None => None
   end.
 
 (* strconv.ParseInt(s, 10, 32) on a sign-and-digits string *)
 Definition parse_int32 (s : str) : option Z :=
   let '(neg, d) := match s with
-                   | 43%N :: r => (false, r)
-                   | 45%N :: r => (true, r)
-                   | _ => (false, s)
+                   | c :: r => if N.eqb c 43 then (false, r) else if N.eqb c 45 then (true, r) else (false, s)
+                   | [] => (false, s)
                    end in
   match d with
   | [] => None
@@ -277,7 +276,7 @@ Definition ends_with_space (s : str) : bool :=
   match rev s with
   | [] => false
   | c :: r =>
-    if ascii_space c then true
+    if N.ltb c 128 then ascii_space c
     else match r with
          | c1 :: r1 =>
            if (N.eqb c1 194 && (N.eqb c 133 || N.eqb c 160))%bool then true            (* U+0085 U+00A0 *)
@@ -327,36 +326,31 @@ Definition lax_enum_num (j : json) : option Z :=
 Record rfcnum := mkRfc { rn_neg : bool; rn_int : str; rn_frac : str; rn_eneg : bool; rn_exp : str }.
 
 Definition rfc_number (s : str) : option rfcnum :=
-  let '(neg, s0) := match s with 45%N :: r => (true, r) | _ => (false, s) end in
-  match s0 with
-  | [] => None
-  | c :: r =>
-    let ip := if N.eqb c 48 then Some ([c], r)
-              else if is_19 c then let (d, t) := span_digits r in Some (c :: d, t)
-              else None in
-    match ip with
-    | None => None
-    | Some (intp, s1) =>
-      let fr := match s1 with
-                | 46%N :: r2 => let (d, t) := span_digits r2 in
-                                match d with [] => None | _ => Some (d, t) end
-                | _ => Some ([], s1)
-                end in
+  let (neg, s0) := strip_minus s in
+  match int_part s0 with
+  | None => None
+  | Some (ip, s1) =>
+    match s1 with
+    | [] => Some (mkRfc neg ip [] false [])
+    | c :: r1 =>
+      let fr := if N.eqb c 46 then (let (d, t) := span_digits r1 in
+                                    match d with [] => None | _ => Some (d, t) end)
+                else Some ([], s1) in
       match fr with
       | None => None
       | Some (frac, s2) =>
         match s2 with
-        | [] => Some (mkRfc neg intp frac false [])
+        | [] => Some (mkRfc neg ip frac false [])
         | e :: r3 =>
-          if (N.eqb e 101 || N.eqb e 69)%bool then
+          if is_e e then
             let '(eneg, r4) := match r3 with
-                               | 43%N :: t => (false, t)
-                               | 45%N :: t => (true, t)
-                               | _ => (false, r3)
+                               | c4 :: t => if N.eqb c4 43 then (false, t)
+                                            else if N.eqb c4 45 then (true, t) else (false, r3)
+                               | [] => (false, r3)
                                end in
             let (d, t) := span_digits r4 in
             match d, t with
-            | _ :: _, [] => Some (mkRfc neg intp frac eneg d)
+            | _ :: _, [] => Some (mkRfc neg ip frac eneg d)
             | _, _ => None
             end
           else None
